@@ -122,6 +122,7 @@ func (t *Tokenizer) Load(r io.Reader, handler TokenHandler) (err error) {
 		if err != nil {
 			return
 		}
+		t.noff -= len(buf) - skip
 		skip = 0
 		if eof {
 			break
